@@ -170,7 +170,8 @@ def ops_stage(res, h, ops, dist):
                       {"ops": small}, found_input=True, key="ops:" + (ops[i].split()[2] if len(ops[i].split()) > 2 else "reset"))
         ok = False
     d = vlib.first_diff(impl, model)
-    if d is not None and ok:
+    # a correspondence difference is reported unless a monitor violation at or before that line already explains it
+    if d is not None and (not bad or d < bad[0]):
         sess_start = max(j for j in range(d + 1) if ops[j] == "o reset")
         res.violation("correspondence: model and real code differ at op %r: impl=%s model=%s (the monitor accepts the real code's answers)" % (
             ops[d], impl[d][:300] if d < len(impl) else "-", model[d][:300] if d < len(model) else "-"),
@@ -270,7 +271,13 @@ def run_workload(res, h, w, rng, tier, dist):
             pos = len(lines)
         else:
             pos = len(lines)
+    if not recs:
+        res.violation("workload %s: no fault-injected run produced a record" % w, {"ops": lines[:3]}, found_input=False, key="empty:" + w)
+        return 0
     mon, _, _ = vlib.run_model("C15", recs)
+    if len(mon) != len(recs):
+        res.violation("workload %s: the monitor answered %d of %d records" % (w, len(mon), len(recs)), {"ops": done_lines[:3]},
+                      found_input=False, key="corr")
     fired_by_class = dist["fired"]
     for line, r, m in zip(done_lines, recs, mon):
         f = dict(x.split("=", 1) for x in r.split() if "=" in x)
@@ -314,10 +321,14 @@ def run(res):
     for i in range(nsess):
         ops += gen_session(rng, rng.choice((10, 25, 45))) if i % 3 else gen_retry_session(rng, rng.choice((6, 12)))
     ops_ok = ops_stage(res, h, ops, dist)
+    if not ops or sum(dist["ops"].values()) == 0:
+        res.violation("empty run: no operation line was executed", {"ops": ops[:5]}, found_input=False, key="empty")
     # ---- PART 1
     n_runs = 0
     for w in (QUICK_WL if res.tier == "quick" else THOROUGH_WL):
         n_runs += run_workload(res, h, w, rng, res.tier, dist)
+    if n_runs == 0:
+        res.violation("empty run: no fault-injected workload run was executed", {"ops": []}, found_input=False, key="empty")
     if not ok:
         bf = getattr(res, "build_failures", [])
         found = any(v["found_input"] for v in res.violations)
